@@ -685,14 +685,10 @@ impl SymbolicBDD {
     fn parse_negation(tokens: &mut TokenReader) -> io::Result<Self> {
         expect(SymbolicBDDToken::Not, tokens)?;
 
-        let sf = Self::parse_simple_sub_formula(tokens);
+        // a failed simple term has already consumed tokens: report the error instead of re-parsing the remainder
+        let sf = Self::parse_simple_sub_formula(tokens)?;
 
-        if let Ok(sf_ok) = sf {
-            Ok(Self::Not(Box::new(sf_ok)))
-        } else {
-            // failover if the next part is not a simple formula
-            Ok(Self::Not(Box::new(Self::parse_sub_formula(tokens)?)))
-        }
+        Ok(Self::Not(Box::new(sf)))
     }
 
     fn parse_parentized_formula(tokens: &mut TokenReader) -> io::Result<Self> {
